@@ -206,6 +206,9 @@ pub fn templated_workspace() -> Workspace {
                 WsFile { rel: "src/tail_type.gleam".into(), text: "import lib.{type Shape}\n\npub type Figure = Shape".into() },
                 WsFile { rel: "src/tail_const.gleam".into(), text: "import lib as l\n\npub const cap = l.unit".into() },
                 WsFile { rel: "src/tail_fn.gleam".into(), text: "import lib.{area}\n\npub const measure = area".into() },
+                // locals spelled like the imported module (bound by let, by a clause pattern, by use)
+                // as the base of a field access: the label is the field, the base the local
+                WsFile { rel: "src/shadow.gleam".into(), text: "import lib\n\npub type Conf {\n  MkConf(port: Int, host: String)\n}\n\npub fn start(conf: Conf) -> Int {\n  let lib = conf\n  lib.port\n}\n\npub fn pick(confs: List(Conf)) -> String {\n  case confs {\n    [lib, ..] -> lib.host\n    _ -> \"\"\n  }\n}\n\npub fn using(giver: fn(fn(Conf) -> Int) -> Int) -> Int {\n  use lib <- giver\n  lib.port\n}\n\npub fn total(c: Conf) -> Int {\n  lib.area(lib.Blob) + c.port\n}\n".into() },
             ],
             deps: vec![],
             is_local: true,
@@ -216,7 +219,7 @@ pub fn templated_workspace() -> Workspace {
 /// Names of the templated workspace that denote ONE entity wherever they are spelled (no
 /// shadowing, no second declaration): a rename started at any occurrence must be accepted and
 /// edit every occurrence - an oracle that does not ask the analysis.
-const TEMPLATE_UNIQUE: &[&str] = &["Circle", "Square", "Blob", "IntValue", "TextValue", "Shape", "Value", "unit", "area", "show", "toggle", "flag", "count", "label"];
+const TEMPLATE_UNIQUE: &[&str] = &["Circle", "Square", "Blob", "IntValue", "TextValue", "Shape", "Value", "unit", "area", "show", "toggle", "flag", "count", "label", "side", "Conf", "MkConf", "port", "host", "start", "pick", "using", "total", "conf", "confs", "giver"];
 
 /// The templated workspace under name substitutions: constructors and types spelled like the
 /// built-in ones (`Ok`, `Error`, `Nil`, `True`, `False`, `Result`, `Bool`), which a module may declare.
@@ -297,7 +300,7 @@ fn templated_coverage_layer(rep: &mut Report) {
             }
         }
     }
-    l.bound = format!("{} variants of the templated workspace (plain; constructors spelled Ok / Error / Nil; True / False; types spelled Result / Bool; a type spelled like a constructor of another type) x every name that denotes a single entity x every occurrence of it in 7 modules: the rename is accepted and edits exactly all occurrences of the spelling", variants.len());
+    l.bound = format!("{} variants of the templated workspace (plain; constructors spelled Ok / Error / Nil; True / False; types spelled Result / Bool; a type spelled like a constructor of another type) x every name that denotes a single entity x every occurrence of it in 8 modules (fields included; one module binds locals spelled like an imported module by let / clause pattern / use and accesses their fields): the rename is accepted and edits exactly all occurrences of the spelling", variants.len());
     rep.layer(l);
 }
 
